@@ -96,6 +96,11 @@ OBS = {
     "ravel": (lambda x, a: x.ravel().tolist(), lambda r, a: [v for q in r for v in q]),
     "meta": (lambda x, a: (len(x), int(x.size), np.asarray(x.lengths).tolist(), np.asarray(x.shape[1]).tolist(), str(x.dtype) if x.size else "any"),
              lambda r, a: (len(r), sum(len(q) for q in r), [len(q) for q in r], [len(q) for q in r], _CUR["dtype"] if sum(len(q) for q in r) else "any")),
+    "reversed": (lambda x, a: [q.tolist() for q in reversed(x)], lambda r, a: [list(q) for q in reversed(r)]),       # python's sequence protocol (__len__ + __getitem__)
+    "lenbool": (lambda x, a: (len(x), bool(x)), lambda r, a: (len(r), len(r) > 0)),
+    "maxall": (lambda x, a: np.asarray(np.max(x)).item() if x.size else "empty", lambda r, a: max(v for q in r for v in q) if any(len(q) for q in r) else "empty"),
+    "minall": (lambda x, a: np.asarray(np.min(x)).item() if x.size else "empty", lambda r, a: min(v for q in r for v in q) if any(len(q) for q in r) else "empty"),
+    "anyall": (lambda x, a: (bool(np.any(x)), bool(np.all(x))), lambda r, a: (any(v != 0 for q in r for v in q), all(v != 0 for q in r for v in q))),
     "repr": (lambda x, a: repr(x), None),
     "str": (lambda x, a: str(x), None),
     "mean1": (lambda x, a: x.mean(axis=-1).tolist(), None),
@@ -180,7 +185,7 @@ def _snap_same(o, sn):
 MATERIALISING = {"tolist", "iter", "ravel", "sum1", "npsum1", "sumall", "nonzero", "add1", "eqself", "cumsum", "sort", "diff", "zeros", "concatself", "astype", "save"}
 READ_OPS = [k for k in OBS]
 # observations whose result on float data (NaN, inf, -0.0, non-dyadic values) is defined element by element, hence exactly predictable
-FLOAT_OBS = ["partnerpurity", "tolist", "iter", "ravel", "meta", "repr", "str", "row", "elem", "rowscol", "pairs", "elem_oob", "badadd", "ell", "empty", "maskidx", "subset", "padded", "nonzero", "add1", "sel", "rslice",
+FLOAT_OBS = ["reversed", "lenbool", "partnerpurity", "tolist", "iter", "ravel", "meta", "repr", "str", "row", "elem", "rowscol", "pairs", "elem_oob", "badadd", "ell", "empty", "maskidx", "subset", "padded", "nonzero", "add1", "sel", "rslice",
              "getcol", "colcounts", "tonp", "astype", "concatself", "zeros", "diff", "save"]
 FLOAT_READS = FLOAT_OBS + ["sum1", "npsum1", "sumall", "any1", "eqself", "where", "max1", "sort", "unique", "mean1", "mean0", "all1", "min1"]     # fine as *inserted reads* (no model opinion needed)
 FLOAT_POOL = [0.1, 0.7, 1e17, 1.0, -2.5, 3.25, float("inf"), float("nan"), -0.0, 0.3, 123456.789, -1e-7, float("-inf"), 2.0]
